@@ -542,6 +542,9 @@ def random_file_case(rng):
         depth_stack.pop()
     if ctx_doc[0]:
         lines.append("struct L%d {}" % (len(lines) + 1))     # whatever doc comment is still pending documents this one
+        if rng.random() < 0.6:
+            # ... and the file may still end in a directive line (with its trailing comment, multi-byte or not, and no line break)
+            lines.append(directive(rng.choice(["define ", "undef "]) + rng.choice(syms)))
     defines = tuple(s for s in syms if rng.random() < 0.4)
     case = {"files": [lines], "defines": defines, "extra_ok_codes": ("Deprecated", "BrokenDocLink"), "lint_probes": lint_probes}
     # garbage inside regions the reference says are removed (must never reach the Slice lexer)
